@@ -446,6 +446,8 @@ func checkC03(c *Ctx) {
 	ruleR12(c, dv, modes, "R3.3b")
 	ruleR13(c, dv, "R3.3c")
 	ruleCounterInit(c, dv, "R3.3d")
+	ruleR14(c, dv, "R3.8")                                             // every holder's release reaches NoteOff (or finds the tracker empty)
+	c.importRules(checkC14, []string{"R14.4"}, "R3.9")                // every holder's press reaches NoteOn: no filter in front of the dispatch drops it
 	c.importRules(transportRules, []string{"R15.1", "R15.2"}, "R3.6") // the per-mode emission must arrive as emitted: relays forward every message exactly once, unaltered
 	ruleR16(c, dv, modes, "R3.5")
 	ruleConfigCopyIntact(c, dv, "R3.7")
@@ -853,6 +855,83 @@ func ruleConfigCopyIntact(c *Ctx, dv *dev, rule string) {
 					continue
 				}
 				bad, badPos = fmt.Sprintf("%s stores into a field of the device's copy of the parsed configuration (%s): what the device consults at run time (collision mode, mappings, defaults) is no longer what the file states", shortFn(fn), NewFnView(c.P, fn).Term(st.Addr)), c.P.Pos(st.Pos())
+			}
+		}
+	}
+	// the configuration handed to NewDevice is not modified on its way into the device either: neither the parameter's own
+	// fields (`cfg.Config.KeyMappings = usable` before the copy is taken) nor what it shares with the loaded configuration
+	// and with every other device made from it (elements of its slices, entries of its maps)
+	if nd := dv.fn["NewDevice"]; nd != nil && bad == "" {
+		hosts := dv.hostsOf(nd)
+		var fromCfg func(v ssa.Value, depth int) bool
+		fromCfg = func(v ssa.Value, depth int) bool {
+			if depth > 14 || v == nil {
+				return false
+			}
+			switch x := v.(type) {
+			case *ssa.Parameter:
+				n, ok := deref(x.Type()).(*types.Named)
+				return ok && n.Obj().Pkg() != nil && n.Obj().Pkg().Path() == pkgConfig
+			case *ssa.Alloc:
+				for _, r := range *x.Referrers() {
+					if st, ok := r.(*ssa.Store); ok && st.Addr == ssa.Value(x) && fromCfg(st.Val, depth+1) {
+						return true
+					}
+				}
+				return false
+			case *ssa.FieldAddr:
+				return fromCfg(x.X, depth+1)
+			case *ssa.Field:
+				return fromCfg(x.X, depth+1)
+			case *ssa.IndexAddr:
+				return fromCfg(x.X, depth+1)
+			case *ssa.Index:
+				return fromCfg(x.X, depth+1)
+			case *ssa.UnOp:
+				return x.Op == token.MUL && fromCfg(x.X, depth+1)
+			case *ssa.Lookup:
+				return fromCfg(x.X, depth+1)
+			case *ssa.Extract:
+				return fromCfg(x.Tuple, depth+1)
+			case *ssa.Next:
+				return fromCfg(x.Iter, depth+1)
+			case *ssa.Range:
+				return fromCfg(x.X, depth+1)
+			case *ssa.Slice:
+				return fromCfg(x.X, depth+1)
+			case *ssa.Phi:
+				for _, e := range x.Edges {
+					if fromCfg(e, depth+1) {
+						return true
+					}
+				}
+			}
+			return false
+		}
+		for _, fn := range hosts {
+			for _, b := range fn.Blocks {
+				for _, in := range b.Instrs {
+					switch x := in.(type) {
+					case *ssa.Store:
+						if _, isAlloc := x.Addr.(*ssa.Alloc); isAlloc {
+							continue // the parameter itself being spilled / a local copy taken
+						}
+						if allocRooted(x.Addr) {
+							// a field of the (spilled) parameter, or of a local copy of part of it
+							if root := allocRoot(x.Addr); root != nil && fromCfg(root, 0) {
+								bad, badPos = fmt.Sprintf("%s changes the configuration it was handed (%s) before the device takes its copy: what the device consults at run time (mapping list and the default index into it, collision mode, defaults) is no longer what the file states", shortFn(fn), NewFnView(c.P, fn).Term(x.Addr)), c.P.Pos(x.Pos())
+							}
+							continue
+						}
+						if fromCfg(x.Addr, 0) {
+							bad, badPos = fmt.Sprintf("%s writes through the configuration it was handed (%s): slices and maps of the parsed configuration are shared with the loaded configuration and with every other device made from it", shortFn(fn), NewFnView(c.P, fn).Term(x.Addr)), c.P.Pos(x.Pos())
+						}
+					case *ssa.MapUpdate:
+						if fromCfg(x.Map, 0) {
+							bad, badPos = fmt.Sprintf("%s updates a map of the configuration it was handed (%s): the maps of the parsed configuration are shared with the loaded configuration and with every other device made from it", shortFn(fn), NewFnView(c.P, fn).Term(x.Map)), c.P.Pos(x.Pos())
+						}
+					}
+				}
 			}
 		}
 	}
